@@ -83,6 +83,41 @@ macro_rules! glue2 {
     };
 }
 
+/// wrapper of a contract WITHOUT interfaces (single part)
+#[macro_export]
+macro_rules! glue1 {
+    ($name:ident, $wrap:path, $vc:ident : $pc:ty) => {
+        pub fn $name<'de, D: sylvia::serde::Deserializer<'de, Error = support::doc::E> + Copy>(doc: D) -> u8 {
+            use $wrap as W;
+            let w: Result<W, support::doc::E> = support::doc::decode(doc);
+            let c: Result<$pc, support::doc::E> = support::doc::decode(doc);
+            let out = match (&w, &c) {
+                (Ok(W::$vc(x)), Ok(p)) => {
+                    assert!(x == p, "payload equals the part's own decoding");
+                    1
+                }
+                (Err(_), Err(_)) => 0,
+                (Err(_), Ok(_)) => {
+                    assert!(false, "a document the only part accepts must be accepted");
+                    0
+                }
+                (Ok(_), Err(_)) => {
+                    assert!(false, "the wrapper accepted a document its only part rejects");
+                    0
+                }
+            };
+            core::mem::forget((w, c));
+            out
+        }
+    };
+}
+
+pub mod names1 {
+    use crate::names::nm::sv::{ContractExecMsg, ContractQueryMsg, ExecMsg, QueryMsg};
+    glue1!(exec, ContractExecMsg, Nm: ExecMsg);
+    glue1!(query, ContractQueryMsg, Nm: QueryMsg);
+}
+
 pub mod basic3 {
     use crate::basic::ct::sv::{ContractExecMsg, ContractQueryMsg, ContractSudoMsg, ExecMsg, QueryMsg, SudoMsg};
     use crate::basic::ifa::sv::{IfaExecMsg, IfaQueryMsg, IfaSudoMsg};
